@@ -468,7 +468,9 @@ theorem core_value_received_in_task (m : M) (c ic : Ctx) (v : Tok) (i : Nat) (a 
   have hfa : m.flagArg = some a := by unfold M.flagArg; rw [hfl]; simp [hi, ha]
   have hw : m.waiting = true := by unfold M.waiting; rw [hfa]; simp [ht, hr, hk]
   unfold M.handle
-  simp only [hst, hctx, hcf, hcinv, Option.isSome_none, Bool.false_eq_true, if_false, reduceCtorEq, hw, if_true]
+  have hop : m.optionalPending = false := by simp [M.optionalPending, hfa, ho]
+  simp only [hst, hctx, hcf, hcinv, Option.isSome_none, Bool.false_eq_true, if_false, reduceCtorEq, hw, hop, Bool.false_and,
+    Bool.not_false, Bool.and_self, if_true]
   unfold M.seeValue M.checkAmbiguity
   simp only [hfa, ho, bind, Except.bind, ht, if_true, hs]
   simp [M.updFlagArg, hfl, hi, hst]
